@@ -14,3 +14,37 @@ PAIRS = [
     P("clamp", "_mi_clamp"),
     P("pow2", "_mi_is_power_of_two"),
 ]
+
+# ---- address arithmetic ----
+HP = "harness/c16_ptr.c"
+HS = "harness/c16_seg.c"
+import common
+ALLBS = common.used_classes()       # the range of the real _mi_bin (45 classes), recomputed on every run
+NONPOW2 = [b for b in ALLBS if b & (b - 1)]
+QUICKBS = [b for b in (8, 48, 80, 112, 1280, 10240, 57344, 65536) if b in ALLBS]
+PAIRS += [
+    dict(name="unalign_shift", harness=HP, entry="h_unalign", enforce="_mi_page_ptr_unalign", label="P", config="REL",
+         defs=["-DVC_TU_FREE", "-DVC_SHIFT_PATH"], functions=["_mi_page_ptr_unalign"], timeout=300),
+    dict(name="slice_bin8", harness=HP, enforce="mi_slice_bin8", label="P", config="REL", defs=["-DVC_TU_SEGMENT"],
+         functions=["mi_slice_bin8"]),
+    dict(name="slice_bin_lemmas", harness=HP, enforce=None, mode="plain", label="P", config="REL", defs=["-DVC_TU_SEGMENT"],
+         functions=["mi_slice_bin8"]),
+    dict(name="fast_divisor", harness=HP, enforce="mi_get_fast_divisor", label="P", config="REL", defs=["-DVC_TU_HEAP"],
+         functions=["mi_get_fast_divisor"], timeout=300),
+    dict(name="ptr_segment", harness=HS, enforce="_mi_ptr_segment", label="P", config="SCALED", functions=["_mi_ptr_segment"]),
+    dict(name="page_of", harness=HS, enforce="_mi_segment_page_of", label="P", config="SCALED", functions=["_mi_segment_page_of", "mi_slice_first"], timeout=300,
+         # only the segment header is modelled as an object (a 4 MiB object exhausts the SAT solver); `p - segment` for p
+         # in the page area is then flagged as leaving the object, which the real MI_SEGMENT_SIZE mapping does not; a failed
+         # built-in check blocks all later obligations (UNKNOWN), so pointer checks are off for this pair only -- array
+         # bounds checks (the slices[idx] access, which is what matters) stay on
+         cbmc_flags=["--no-pointer-check"]),
+]
+for b in ALLBS:
+    q = "quick" if b in QUICKBS else "thorough"
+    if b in NONPOW2:
+        PAIRS.append(dict(name="unalign_mod_%d" % b, harness=HP, entry="h_unalign", enforce="_mi_page_ptr_unalign", label="P",
+                          config="REL", defs=["-DVC_TU_FREE", "-DVC_BS=%d" % b], functions=["_mi_page_ptr_unalign"], tier=q, timeout=300))
+    PAIRS.append(dict(name="fast_divide_%d" % b, harness=HP, entry="h_fast_divide", enforce=None, mode="plain", label="P",
+                      config="REL", defs=["-DVC_TU_HEAP", "-DVC_BS=%d" % b], functions=["mi_fast_divide", "mi_get_fast_divisor"], tier=q, timeout=300))
+    PAIRS.append(dict(name="page_start_%d" % b, harness=HS, entry="h_page_start", enforce="_mi_segment_page_start_from_slice", label="P",
+                      config="SCALED", defs=["-DVC_BS=%d" % b], functions=["_mi_segment_page_start_from_slice"], tier=q, timeout=300))
